@@ -16,6 +16,7 @@ import (
 
 	"github.com/vimeo/dials"
 	"github.com/vimeo/dials/sources/env"
+	"github.com/vimeo/dials/tagformat/caseconversion"
 
 	"github.com/vimeo/dials/ptrify"
 	"github.com/vimeo/dials/transform"
@@ -142,5 +143,111 @@ func c11Boundaries(c *Ctx) {
 			}
 		}
 		res.Case("B|"+k.field+"|"+k.text, k.want != nil, cs)
+	}
+}
+
+// ---------- names and texts at the byte level ----------
+//
+// Exported field names whose first letter takes two, three or four bytes of UTF-8 survive every chain like ASCII ones,
+// and a string leaf comes back byte for byte - leading / trailing white space (ASCII and Unicode), a lone space, CR LF.
+
+type c10UCfg struct {
+	Name    string
+	Élan    string
+	Ṫimeout int
+	Ấlpha   string
+	Ａside   *string
+	Ꭰone    bool
+	Ṡet     map[string]struct{}
+}
+
+func c10Unicode(c *Ctx) {
+	res := c.Res
+	pt := ptrify.Pointerify(reflect.TypeOf(c10UCfg{}), reflect.ValueOf(c10UCfg{}))
+	texts := []string{"two lines\nthe second ends in a newline\n", "\tkey: value", "東京　", "a ", " ", "\r\n", "plain", "\u0085x\u0085"}
+	chains := map[string][]transform.Mangler{
+		"alias+setslice":        {transform.NewAliasMangler("dials"), &transform.SetSliceMangler{}},
+		"stringcast":            {&transform.StringCastingMangler{}},
+		"alias+flatten":         {transform.NewAliasMangler("dials", "dialsenv"), transform.NewFlattenMangler("dials", caseconversion.EncodeUpperCamelCase, caseconversion.EncodeCasePreservingSnakeCase)},
+		"anon+text-unmarshaler": {transform.AnonymousFlattenMangler{}, &transform.TextUnmarshalerMangler{}},
+	}
+	for name, chain := range chains {
+		for ti, text := range texts {
+			cs := map[string]any{"stream": "unicode names / byte-exact strings", "chain": name, "text": text}
+			tf := transform.NewTransformer(pt, chain...)
+			var out reflect.Value
+			var err error
+			var nTranslated int
+			pn := catch(func() {
+				var val reflect.Value
+				val, err = tf.Translate()
+				if err != nil {
+					return
+				}
+				nTranslated = val.NumField()
+				// fill every string-ish translated field with the text, ints / bools where they kept their type
+				for k := 0; k < val.NumField(); k++ {
+					f := val.Field(k)
+					if f.Kind() != reflect.Ptr {
+						continue
+					}
+					switch f.Type().Elem().Kind() {
+					case reflect.String:
+						fname := val.Type().Field(k).Name
+						t := text
+						if strings.Contains(fname, "imeout") {
+							t = "42"
+						} else if strings.HasPrefix(fname, "Ꭰ") {
+							t = "true"
+						} else if strings.HasPrefix(fname, "Ṡ") {
+							t = "a,b"
+						}
+						f.Set(reflect.ValueOf(&t))
+					case reflect.Int:
+						x := 42
+						f.Set(reflect.ValueOf(&x))
+					case reflect.Bool:
+						b := true
+						f.Set(reflect.ValueOf(&b))
+					case reflect.Ptr:
+						t := text
+						p := &t
+						f.Set(reflect.ValueOf(&p))
+					}
+				}
+				out, err = tf.ReverseTranslate(val)
+			})
+			res.Count("unicode/" + name)
+			switch {
+			case pn != "":
+				res.Add(Finding{Kind: "violation", What: "translate / reverse panicked: " + pn, Case: cs})
+			case err != nil:
+				res.Add(Finding{Kind: "violation", What: "translate / reverse failed on a type with non-ASCII exported field names: " + err.Error(), Case: cs})
+			case nTranslated < 7:
+				res.Add(Finding{Kind: "violation", What: fmt.Sprintf("the translated type has %d fields for 7 exported leaves: an exported field with a non-ASCII initial was dropped", nTranslated), Case: cs})
+			default:
+				get := func(n string) reflect.Value {
+					f := out.FieldByName(n)
+					for f.Kind() == reflect.Ptr && !f.IsNil() {
+						f = f.Elem()
+					}
+					return f
+				}
+				for _, n := range []string{"Name", "Élan", "Ấlpha", "Ａside"} {
+					f := get(n)
+					if f.Kind() != reflect.String || f.String() != text {
+						res.Add(Finding{Kind: "violation", What: fmt.Sprintf("string leaf %s: wrote %q into its translated field, ReverseTranslate returned %v", n, text, f), Case: cs})
+						break
+					}
+				}
+				if f := get("Ṫimeout"); f.Kind() != reflect.Int || f.Int() != 42 {
+					res.Add(Finding{Kind: "violation", What: fmt.Sprintf("leaf Ṫimeout: wrote 42, got %v", f), Case: cs})
+				}
+				if f := get("Ꭰone"); f.Kind() != reflect.Bool || !f.Bool() {
+					res.Add(Finding{Kind: "violation", What: fmt.Sprintf("leaf Ꭰone: wrote true, got %v", f), Case: cs})
+				}
+			}
+			res.Case(fmt.Sprintf("U|%s|%d", name, ti), true, cs)
+		}
 	}
 }
